@@ -303,7 +303,11 @@ func (c *EvalCtx) derefPtr(ref T, elem types.Type) SV {
 func (c *EvalCtx) selector(v *ESel) SV {
 	// package-qualified name?
 	if id, ok := v.X.(*EIdent); ok {
-		if _, bound := c.env[id.Name]; !bound {
+		isLocal := false
+		if c.locals != nil && c.st != nil && c.st.cells != nil {
+			_, isLocal = c.x.localSV(c.st, c.locals, id.Name)
+		}
+		if _, bound := c.env[id.Name]; !bound && !isLocal {
 			if _, isLet := c.lets[id.Name]; !isLet {
 				if pkg := c.x.resolvePkg(id.Name, c.pkg, c.sf); pkg != nil {
 					if c.pkg == nil || c.pkg.Scope().Lookup(id.Name) == nil {
@@ -767,6 +771,39 @@ func (c *EvalCtx) call(v *ECall) SV {
 		return SV{t: app(SReal, "xf-val", argT(0))}
 	case "pl":
 		return SV{t: ifacePl(argT(0))}
+	case "mapdom", "mapval", "nokeys":
+		// whole-map views: key set / value function of a map as arrays (quantifier-free map reasoning)
+		m := arg(0)
+		if m.typ == nil {
+			sfail("%s: untyped argument", v.Fun)
+		}
+		mt, ok := m.typ.Underlying().(*types.Map)
+		if !ok {
+			sfail("%s: not a map", v.Fun)
+		}
+		switch v.Fun {
+		case "mapdom":
+			return SV{t: sel(c.st.mapDom(m.typ), c.value(m))}
+		case "mapval":
+			return SV{t: sel(c.st.mapVal(m.typ), c.value(m))}
+		default:
+			ds := arraySort(sortOf(mt.Key()), SBool)
+			return SV{t: T{fmt.Sprintf("((as const %s) false)", ds), ds}}
+		}
+	case "with":
+		a := argT(0)
+		return SV{t: store(a, argT(1), argT(2))}
+	case "without":
+		a := argT(0)
+		return SV{t: store(a, argT(1), mkBool(false))}
+	case "iface", "asKey":
+		// iface(x): x boxed into an interface value with its static type as dynamic type
+		a := arg(0)
+		if a.typ == nil {
+			sfail("iface: untyped argument")
+		}
+		t, _ := boxIface(c.value(a), a.typ)
+		return SV{t: t, typ: types.NewInterfaceType(nil, nil)}
 	case "addrof":
 		// addrof(x.f): the address of a field as a value (e.g. of a mutex)
 		a := arg(0)
@@ -854,6 +891,10 @@ func (c *EvalCtx) applyGhost(g *GhostFunc, v *ECall) SV {
 	if gpkg == nil {
 		gpkg = c.pkg
 	}
+	gsf := g.SF
+	if gsf == nil {
+		gsf = c.sf
+	}
 	args := make([]SV, len(v.Args))
 	for i := range v.Args {
 		args[i] = c.eval(v.Args[i])
@@ -866,13 +907,14 @@ func (c *EvalCtx) applyGhost(g *GhostFunc, v *ECall) SV {
 		n.env = map[string]SV{}
 		n.lets = nil
 		n.pkg = gpkg
+		n.sf = gsf
 		n.depth = c.depth + 1
 		if n.depth > 60 {
 			sfail("ghost function recursion too deep: %s", g.Name)
 		}
 		for i, p := range g.Params {
 			a := args[i]
-			_, typ := c.x.ghostSort(p.Type, gpkg, c.sf)
+			_, typ := c.x.ghostSort(p.Type, gpkg, gsf)
 			if a.isNil && typ != nil {
 				a = SV{t: zeroOf(typ), typ: typ}
 			}
@@ -882,7 +924,7 @@ func (c *EvalCtx) applyGhost(g *GhostFunc, v *ECall) SV {
 			n.env[p.Name] = a
 		}
 		r := n.eval(g.Body)
-		_, rtyp := c.x.ghostSort(g.Result, gpkg, c.sf)
+		_, rtyp := c.x.ghostSort(g.Result, gpkg, gsf)
 		if r.typ == nil {
 			r.typ = rtyp
 		}
@@ -891,7 +933,7 @@ func (c *EvalCtx) applyGhost(g *GhostFunc, v *ECall) SV {
 	var sorts []string
 	var ts []T
 	for i, p := range g.Params {
-		s, typ := c.x.ghostSort(p.Type, gpkg, c.sf)
+		s, typ := c.x.ghostSort(p.Type, gpkg, gsf)
 		sorts = append(sorts, s)
 		a := args[i]
 		var t T
@@ -905,7 +947,7 @@ func (c *EvalCtx) applyGhost(g *GhostFunc, v *ECall) SV {
 		}
 		ts = append(ts, t)
 	}
-	rs, rtyp := c.x.ghostSort(g.Result, gpkg, c.sf)
+	rs, rtyp := c.x.ghostSort(g.Result, gpkg, gsf)
 	f := declFun("ghost "+g.Name, sorts, rs)
 	if len(ts) == 0 {
 		return SV{t: T{f, rs}, typ: rtyp}
@@ -983,16 +1025,16 @@ func (c *EvalCtx) applyPureGhost(g *GhostFunc, gpkg *types.Package, args []SV) S
 	var sorts []string
 	var typs []types.Type
 	for _, p := range g.Params {
-		s, typ := c.x.ghostSort(p.Type, gpkg, c.sf)
+		s, typ := c.x.ghostSort(p.Type, gpkg, g.SF)
 		sorts = append(sorts, s)
 		typs = append(typs, typ)
 	}
-	rs, rtyp := c.x.ghostSort(g.Result, gpkg, c.sf)
+	rs, rtyp := c.x.ghostSort(g.Result, gpkg, g.SF)
 	f := declFun("ghost "+g.Name, sorts, rs)
 	key := "def " + g.Pkg + "::" + g.Name
 	if !axiomSeen[key] && !c.x.definingGhost[key] {
 		c.x.definingGhost[key] = true
-		n := &EvalCtx{x: c.x, st: newState(), env: map[string]SV{}, pkg: gpkg, sf: c.sf}
+		n := &EvalCtx{x: c.x, st: newState(), env: map[string]SV{}, pkg: gpkg, sf: g.SF}
 		var binders []string
 		var bvs []T
 		for i, p := range g.Params {
